@@ -337,7 +337,7 @@ func TestC05Seq(t *testing.T) {
 }
 
 // emptyAndCount is run on recovered crash images: delete everything, then all space must be back.
-func emptyAndCount(s *Srv, state *Model) error {
+func emptyAndCount(s *Srv, state *Model, cr *CrashRun) error {
 	x := &Exec{S: s, Prop: "C05", Watchdog: 60 * time.Second, allFH: map[string]int{}, Budget: 1 << 40}
 	x.M = state.Snapshot()
 	for _, n := range x.M.Objs {
